@@ -18,7 +18,7 @@ MARGIN = 1e-6  # relative safety margin used when constructing the separation pr
 @st.composite
 def cart_specs(draw, tier):
     big = tier == "thorough"
-    g = draw(gen.cart_grids(max_shape=(48, 48, 20) if big else (24, 24, 12), min_shape=draw(st.sampled_from([1, 3, 3, 5]))))
+    g = draw(gen.cart_grids(max_shape=(48, 48, 20) if big else (24, 24, 12), min_shape=draw(st.sampled_from([1, 3, 3, 5])), far=True))
     # periodic axes need at least 3 cells so that a droplet cannot touch its own image
     g["periodic"] = [bool(p and n >= 3) for p, n in zip(g["periodic"], g["shape"])]
     geom = O.CartGeom(g["origin"], g["shape"], g["spacing"], g["periodic"])
@@ -62,7 +62,8 @@ def cart_specs(draw, tier):
             if R <= r_lo:
                 continue
             R = gen.r6(R * (1 - 1e-5))
-            pos = [gen.r6(x) if not geom.periodic[a] else float(x) for a, x in enumerate(pos)]
+            # (rounded relative to the lower corner of the box, which may be far away from the origin)
+            pos = [float(geom.origin[a] + gen.r6(x - geom.origin[a])) if not geom.periodic[a] else float(x) for a, x in enumerate(pos)]
             # rounding may move a droplet slightly across a wall: re-clip on non-periodic axes
             ok = True
             for a in range(dim):
@@ -249,9 +250,14 @@ class C01(Property):
         ctx.cls(f"cart{dim}d", f"per{sum(geom.periodic)}", f"n{len(drops)}" if len(drops) <= 4 else "n>" + str(max(t for t in (4, 32, 128, 256, 1024, 2048) if len(drops) > t)))
         covered = []
         straddle = 0
+        # rounding of coordinates: a cell centre / droplet centre of magnitude cmax is only known to a few ulp
+        cmax = float(max(np.abs(np.r_[geom.origin, geom.origin + geom.L]).max(), max((abs(x) for d in drops for x in d["position"]), default=0.0)))
+        ulp_slack = 64 * np.finfo(float).eps * cmax
+        if cmax > 1e5 * float(geom.L.max()):
+            ctx.cls("far-from-origin")
         for d in drops:
             dist = geom.dist_to(d["position"])
-            if np.any(np.abs(dist - d["radius"]) <= 1e-9 * d["radius"]):
+            if np.any(np.abs(dist - d["radius"]) <= 1e-9 * d["radius"] + ulp_slack):
                 ctx.skip("knife-edge")
                 return
             cov = dist < d["radius"]
@@ -284,9 +290,10 @@ class C01(Property):
             taken[j] = True
             p, v = found[j]
             Vexp = cov.sum() * geom.cell_volume
-            ctx.require(abs(v - Vexp) <= 1e-9 * Vexp, "cart:volume", f"droplet at {c} R={d['radius']}: volume {v} expected {Vexp} ({int(cov.sum())} cells)")
+            # (py-pde derives the cell size from the stored bounds of the box: far from the origin it carries their rounding)
+            ctx.require(abs(v - Vexp) <= (1e-9 + 8 * dim * ulp_slack / 64 / float(geom.dx.min())) * Vexp, "cart:volume", f"droplet at {c} R={d['radius']}: volume {v} expected {Vexp} ({int(cov.sum())} cells)")
             delta = np.abs(geom.min_image(p - c))
-            ctx.require(bool(np.all(delta <= geom.dx / 2 * (1 + 1e-9))), "cart:centre", f"droplet at {c} R={d['radius']}: found {p}, |delta|={delta} > dx/2={geom.dx / 2}")
+            ctx.require(bool(np.all(delta <= geom.dx / 2 * (1 + 1e-9) + ulp_slack)), "cart:centre", f"droplet at {c} R={d['radius']}: found {p}, |delta|={delta} > dx/2={geom.dx / 2}")
             for a in range(dim):
                 if geom.periodic[a]:
                     lo, hi = geom.origin[a], geom.origin[a] + geom.L[a]
